@@ -65,32 +65,34 @@ def rule_r3(prog, res) -> None:
     from .. import symx
 
     spaths = [p for p in symx.explore(prog, sp, inline=symx.inline_private_helpers(prog, public={"get_array"})) if p.outcome == "return" and p.value is not None]
-    if len(spaths) != 1:
-        raise AnalysisError(f"C03.R3: sample_patch_sum is expected to have one returning path ({len(spaths)} found)")
-    ret = spaths[0].value
-    ctor = [x for x in ast.walk(ret) if isinstance(x, ast.Call) and len(x.args) >= 3]
-    if not ctor:
-        raise AnalysisError("C03.R3: SampledData(binning, data, samples) construction not recognised")
-    c = ctor[0]
-    d, s = PE(c.args[1], {}, lambda t: t), PE(c.args[2], {}, lambda t: t)
+    if not spaths:
+        raise AnalysisError("C03.R3: sample_patch_sum has no returning path")
     arr = Rational(_atom("self.get_array()"))
     A = lambda spec: Rational(uf_atom(f"einsum<{spec}>", arr))  # noqa: E731
     want_d = A("bij->b")
     want_s = A("bij->b") - A("bij->jb") - A("bij->ib") + A("bii->ib")
-    if d.equals(want_d):
-        res.ok("C03.R3", res.site(sp, "value"), "value = sum over both patch axes per bin")
-    else:
-        res.violation("C03.R3", sp, c.args[1], f"the value of the patch sum is {d.canon()}, expected einsum('bij->b')", key_extra="patch-sum-value")
-    if s.equals(want_s):
-        res.ok("C03.R3", res.site(sp, "samples"), "samples = total - pairs with the patch as first - as second + its diagonal (counted twice)")
-    else:
-        res.violation(
-            "C03.R3",
-            sp,
-            c.args[2],
-            f"jackknife samples normalise to {s.canon()[:200]}, expected total - einsum('bij->jb') - einsum('bij->ib') + einsum('bii->ib'): sample k is not the sum without patch k",
-            key_extra="patch-sum-samples",
-        )
+    for sp_path in spaths:
+        ret = sp_path.value
+        when = f" [{sp_path.cond_text()[:50]}]" if sp_path.conds else ""
+        ctor = [x for x in ast.walk(ret) if isinstance(x, ast.Call) and len(x.args) >= 3]
+        if not ctor:
+            raise AnalysisError("C03.R3: SampledData(binning, data, samples) construction not recognised")
+        c = ctor[0]
+        d, s = PE(c.args[1], {}, lambda t: t), PE(c.args[2], {}, lambda t: t)
+        if d.equals(want_d):
+            res.ok("C03.R3", res.site(sp, "value" + when), "value = sum over both patch axes per bin")
+        else:
+            res.violation("C03.R3", sp, sp_path.node or sp.node, f"the value of the patch sum{when} is {d.canon()}, expected einsum('bij->b')", key_extra="patch-sum-value")
+        if s.equals(want_s):
+            res.ok("C03.R3", res.site(sp, "samples" + when), "samples = total - pairs with the patch as first - as second + its diagonal (counted twice)")
+        else:
+            res.violation(
+                "C03.R3",
+                sp,
+                sp_path.node or sp.node,
+                f"jackknife samples{when} normalise to {s.canon()[:200]}, expected total - einsum('bij->jb') - einsum('bij->ib') + einsum('bii->ib'): sample k is not the sum without patch k",
+                key_extra="patch-sum-samples",
+            )
     # the total is tiled to (num_patches, num_bins): one row per sample
     tiles = [ev.expr for ev in spaths[0].calls("tile")]
     if tiles and len(tiles[0].args) == 2 and isinstance(tiles[0].args[1], ast.Tuple) and "num_patches" in unparse(tiles[0].args[1].elts[0]) and unparse(tiles[0].args[1].elts[1]) == "1":
